@@ -45,6 +45,66 @@ DESC = {
  "C19-2": ("sample_edge accumulates and compares in f64", "a non-f64 scalar type and u within an f64 ulp of a boundary"),
  "C20-1": ("Vector::squared accumulates in blocks of four", "D >= 4 and components where regrouping changes a rounding"),
  "C20-2": ("from_isize goes through i32", "|value| >= 2^31"),
+ "C03-r3-1": ("is_mass_momentum_spanning counts massive edges inside the component that touches the externals", "a subset whose massive edge lies in another component than the externals"),
+ "C03-r3-2": ("get_loop_number returns 0 for subsets with <=1 edge", "a self-loop edge (only the singleton {self-loop} entry is wrong)"),
+ "C03-r3-3": ("get_num_variables pads by D mod 2 instead of D*L mod 2", "odd D together with an even loop count"),
+ "C04-r3-1": ("2^E scratch table kept in a thread_local between builds (stale J entries survive)", "two build_sampler calls on one thread, the second with the same number of edges"),
+ "C04-r3-2": ("Gamma of integer arguments by a factorial table with off-by-one (n! instead of (n-1)!)", "an integer propagator power or dod >= 2"),
+ "C04-r3-3": ("J recursion term replaced by 0 when |omega(g\\e)| < f64::EPSILON", "an accepted graph with a proper subgraph of 0 < omega < 2.2e-16"),
+ "C05-r3-1": ("divergence check only on connected subsets", "a divergent disconnected proper subset whose components are each convergent (massive edge away from the externals)"),
+ "C05-r3-2": ("process-wide cache of (loop number, spanning flag) keyed by end points and externals only", "two builds with identical topology and a different mass pattern in one process"),
+ "C05-r3-3": ("vertex set of a component kept in a u128 bit mask", "a vertex label >= 128"),
+ "C06-r3-1": ("thread-local cache of the running sums keyed by (num_edges, subgraph id)", "two samplers with the same edge count and other weights on one thread"),
+ "C06-r3-2": ("strict comparison u < C_e in the scan", "u bit-equal to a rounded running sum"),
+ "C06-r3-3": ("fall-through returns the highest edge of the FULL graph", "a subgraph without the highest edge, a final running sum below 1 and u in the gap"),
+ "C07-r3-1": ("v_trop / u_trop updates fused into if/else-if", "a massive edge removed while still on a cycle (both conditions at once)"),
+ "C07-r3-2": ("rescaling exponent cached in a process-wide OnceLock", "two samplers with different D/2 L + dod in one process"),
+ "C07-r3-3": ("u_trop update moved behind the early-termination break", "the last remaining edge is a self-loop"),
+ "C09-r3-1": ("cross terms of V over adjacent loop pairs only (tuple_windows)", ">=3 loops with u_0.u_2 (L^-1)_02 != 0"),
+ "C09-r3-2": ("edges with zero shift skipped in sum_e x_e(m_e^2+p_e^2)", "a massive edge with exactly zero shift"),
+ "C09-r3-3": ("L matrix built from 'edge carries both loops' (sign of s_ei s_ej lost)", ">=2 loops and an edge with opposite-sign signature entries"),
+ "C10-r3-1": ("skip(l) in compute_loop_momenta also drops the l'<l part of L^-1 u", ">=2 loops and non-zero u_l' for some l' < l"),
+ "C10-r3-2": ("nilpotent series factorised as (I-N)(I+N^2), exact only up to dimension 4", "five or more loops with N^4 != 0"),
+ "C10-r3-3": ("metadata path applies Q^-1 instead of Q^-T to the Gaussian vectors", "return_metadata = true and >=2 loops with non-diagonal L"),
+ "C12-r3-1": ("wrapper accepts res == 0.0 / -0.0 (De Morgan slip)", "a within 1e-8 of 1 and p <= 2^-54"),
+ "C12-r3-2": ("un-iterated estimate returned for a >= 50 (instead of 500)", "a in [50,100] and quantile within 1e-6 relative of a"),
+ "C12-r3-3": ("closed-form lambda = -ln(x) for dod within 1e-8 of 1 (wrong tail)", "a sampler whose dod is 1"),
+ "C14-r3-1": ("get_num_variables pads by D mod 2 instead of D*L mod 2", "odd D and even L"),
+ "C14-r3-2": ("Box-Muller redraws from the mimic RNG when the radial uniform is exactly 0", "an exactly zero radial coordinate"),
+ "C14-r3-3": ("mimic RNG wraps its index + per-loop spare Gaussian", ">=2 loops in odd D (over-read silently wrapped to the start of the point)"),
+ "C17-r3-1": ("weight sum iterates an ahash HashSet of edge indices", ">=3 edges with not-all-equal non-dyadic weights; differs between instances/processes"),
+ "C17-r3-2": ("return_metadata selects another (differently rounded) formula for the loop momenta", "return_metadata = true, >=2 loops, non-zero shifts"),
+ "C17-r3-3": ("thread-local memo of the last Gamma inversion keyed by the uniform only", "two samplers with different dod on one thread, consecutive calls with the bit-identical lambda coordinate"),
+ "C01-r4-1": ("cross terms of V over adjacent loop pairs only (tuple_windows)", ">=3 loops, non-zero shifts, non-tridiagonal L^-1"),
+ "C01-r4-2": ("last remaining edge handled by an early break (v_trop/u_trop updates skipped)", "a last edge that is still mass-momentum spanning or carries a loop"),
+ "C01-r4-3": ("skip(l) in compute_loop_momenta drops the l'<l part of the shift", ">=2 loops, non-zero shifts, non-diagonal L^-1 (jacobian unchanged)"),
+ "C02-r4-1": ("compute_l_matrix adds plain x_e for every non-zero signature pair (sign lost)", ">=2 loops and a routing row with mixed signs"),
+ "C02-r4-2": ("single-edge branch sets the last parameter and breaks (skips the v_trop transition)", "externals joined directly by a propagator that is removed last"),
+ "C02-r4-3": ("is_mass_momentum_spanning returns is_mass_spanning at once when the graph has massive edges", "a partially massive graph, sector removing the massless momentum-spanning edges before the last massive one"),
+ "C08-r4-1": ("compute_l_matrix treats signature entries as signs (+x_e if s_i == s_j else -x_e)", "a signature entry of magnitude >= 2"),
+ "C08-r4-2": ("Cholesky skips entries whose input element is exactly zero (fill-in lost)", ">=3 loops, two basis loops sharing no edge, an EARLIER loop overlapping both"),
+ "C08-r4-3": ("thread-local cache of s_ei*s_ej keyed by (signature pointer, E, L)", "sample, drop the sampler, build another of the same shape at the freed address"),
+ "C11-r4-1": ("v_trop / u_trop updates fused into if/else-if", "a massive propagator, L>=2, a massless line cut before the first massive one"),
+ "C11-r4-2": ("prod Gamma(w_e) through a memo keyed by `weight as u64`", "two unequal weights with the same integer part"),
+ "C11-r4-3": ("rescaling exponent cached in a thread_local keyed by the ADDRESS of the table", "two samplers with different weight sums used one after the other at the same address"),
+ "C13-r4-1": ("radial coordinate clamped to max(x, f64::EPSILON) before ln", "a radial coordinate below 2.2e-16"),
+ "C13-r4-2": ("Box-Muller pairs restarted per loop vector + get_num_variables adjusted", "odd D together with L >= 2"),
+ "C13-r4-3": ("Gaussians distributed with stride num_loops (gaussians[i*L+l])", "L >= 2 and D >= 2"),
+ "C15-r4-1": ("nilpotent series capped at the small-vector inline capacity", "dimension 7 or 8 with N^6 != 0"),
+ "C15-r4-2": ("Cholesky skips entries whose input element is exactly zero (fill-in lost)", "dimension >= 3, an exact zero at (i,j) and an earlier row coupled to both"),
+ "C15-r4-3": ("ZeroDet when determinant <= f64::EPSILON (absolute threshold)", "a well-conditioned SPD matrix with determinant <= 2.2e-16"),
+ "C16-r4-1": ("l21_norm skips columns whose norm is not > 0 (NaN columns dropped)", "stability test on and a decomposition containing NaN"),
+ "C16-r4-2": ("one-loop samples run the decomposition with matrix_stability_test = None", "one-loop graph, test enabled, an extreme point or tol below ~2e-16"),
+ "C16-r4-3": ("per-pivot zero check replaces the pivot-product check", "non-zero pivots whose product (or its square) underflows"),
+ "C18-r4-1": ("cached_factor not serialised, recomputed on load with another association", "non-integer weights whose Gamma product rounds differently"),
+ "C18-r4-2": ("num_loops not serialised, restored with the connected-component helper", "a disconnected accepted graph"),
+ "C18-r4-3": ("skip_serializing_if = Vec::is_empty on external_vertices", "a struct-as-sequence format and a vacuum graph (no externals)"),
+ "C19-r4-1": ("sample_edge accumulates in f64 and compares with uniform.to_f64()", "a non-f64 scalar and a uniform within f64 resolution of a cumulative boundary"),
+ "C19-r4-2": ("Vector::dot accumulates through to_f64/from_f64", "a non-f64 scalar, >=2 loops, non-zero shifts on two loops"),
+ "C19-r4-3": ("2*PI() replaced by from_f64(TAU) in box_muller (no to_f64 call)", "a scalar type whose PI is more accurate than f64"),
+ "C20-r4-1": ("from_isize goes through i32", "|value| >= 2^31"),
+ "C20-r4-2": ("Vector::dot accumulates in blocks of four", "D >= 4"),
+ "C20-r4-3": ("hypot-style rescaling in Vector::squared for extreme magnitudes", "largest |component| outside [1e-120, 1e120]"),
 }
 
 
